@@ -41,6 +41,9 @@ type RemotePkg struct {
 	Message string            `json:"message,omitempty"`
 	// Deps[location+"|"+finder] lists the dependencies declared at a module location
 	Deps map[string][]Dep `json:"deps,omitempty"`
+	// Extras are additional nodes (links, empty directories, odd modes) the
+	// fetcher materialises after the files.
+	Extras []NodeSpec `json:"extras,omitempty"`
 }
 
 func (p RemotePkg) Addr() string { return p.Base + p.Query }
